@@ -1,22 +1,36 @@
 #!/bin/bash
-# Runs every kept seeded change against the quick tier of the check of the property it breaks
+# Runs every kept seeded change against the quick tier of the check that is expected to catch it
 # (apply to /repo, run, restore) and writes /verif/seeded/REGRESSION.tsv: id, property, exit code, first line.
+# To save time a change is first run against the first quarter of the quick tier's runs (the runs are
+# indexed, so that quarter is a subset of the quick tier: a catch there is a catch in the quick tier);
+# only if that stays quiet is the full quick tier run. Touches /repo while running.
 cd /verif
 out=/verif/seeded/REGRESSION.tsv
-echo -e "seeded_change\tproperty\tcheck_exit\tresult" > $out
-for d in seeded/C*; do
+echo -e "seeded_change\tproperty\tcheck_exit\tstage\tresult" > $out
+one() { # <label> <patch> <prop>
+  local label=$1 patch=$2 p=$3 part=""
+  case $p in C05|C06|C07|C08) part="--runs 4000";; C09) part="--runs 3000";; C19) part="--runs 15000";; esac
+  local stage=full rc line
+  if [ -n "$part" ]; then
+    ./tools/trymutant.sh $patch $p $part > /tmp/regress.one 2>&1; rc=$?; stage=quarter
+  else
+    rc=0
+  fi
+  if [ $rc -ne 1 ]; then
+    ./tools/trymutant.sh $patch $p > /tmp/regress.one 2>&1; rc=$?; stage=full
+  fi
+  line=$(grep -E "^VIOLATION|^OK|harness|refusing|does not apply" /tmp/regress.one | head -1 | cut -c1-160)
+  echo -e "$label\t$p\t$rc\t$stage\t$line" >> $out
+}
+for d in $(ls -d seeded/C* | sort -t- -k2,2r); do
   p=$(basename $d | cut -d- -f1)
   # (a change kept under one property may be the business of another property's check: meta.json says which)
   q=$(python3 -c "import json,sys; c=json.load(open('$d/meta.json')).get('run_against_checks',{}).get('caught_by',[]); print(c[0] if c and c[0].startswith('C') else '')" 2>/dev/null)
   [ -n "$q" ] && p=$q
-  ./tools/trymutant.sh /verif/$d/patch.diff $p > /tmp/regress.one 2>&1; rc=$?
-  line=$(grep -E "^VIOLATION|^OK|harness|refusing|does not apply" /tmp/regress.one | head -1 | cut -c1-160)
-  echo -e "$(basename $d)\t$p\t$rc\t$line" >> $out
+  one $(basename $d) /verif/$d/patch.diff $p
 done
 for f in seeded/own/*.diff; do
   n=$(basename $f .diff); p=$(echo $n | cut -d- -f1 | tr a-z A-Z)
-  ./tools/trymutant.sh /verif/$f $p > /tmp/regress.one 2>&1; rc=$?
-  line=$(grep -E "^VIOLATION|^OK|harness|refusing|does not apply" /tmp/regress.one | head -1 | cut -c1-160)
-  echo -e "own/$n\t$p\t$rc\t$line" >> $out
+  one own/$n /verif/$f $p
 done
 echo DONE >> $out
